@@ -113,9 +113,15 @@ def run(ctx):
             writers.add(m.owner(meth).qualname)
     # (the top-level load function may reset the field to the schema the
     # constructor was given: C12.R9 decides that it is such a reset)
-    run.check({CL + ".__init__", CL + ".importSchemaComponent"} <= writers
+    from rules import stale as _st
+    _resetting = {fn.qualname for fn, a, reset in _st.field_stores(
+        m, [CL] + m.subclasses(CL), "schema") if reset}
+    _rebinding = {fn.qualname for fn, a, reset in _st.field_stores(
+        m, [CL] + m.subclasses(CL), "schema") if not reset}
+    run.check(_rebinding <= {CL + ".__init__", CL + ".importSchemaComponent"}
+              and CL + ".importSchemaComponent" in _rebinding
               and writers <= {CL + ".__init__", CL + ".importSchemaComponent",
-                              CL + ".loadResource"},
+                              CL + ".loadResource"} | _resetting,
               "C12.R4", CL, "writers of self.schema",
               "self.schema is written only by the constructor, by "
               "importSchemaComponent and (as a reset) by the top-level load",
